@@ -3,14 +3,15 @@ CONF = {
     'interesting': ['mut-blocklen', 'mut-optlen', 'mut-tsresol', 'mut-caplen', 'mut-ifid', 'mut-optcode', 'mut-reclen',
                     'mut-rectype', 'mut-origlen', 'mut-snaplen', 'mut-secretslen', 'mut-blocktype', 'mut-bom', 'mut-version',
                     'mut-optval', 'mut-tsoff', 'mut-ts', 'mut-linktype',
-                    'short-read-chunking', 'injected-error', 'gzip', 'truncated-golden', 'golden-byte', 'garbage'],
+                    'short-read-chunking', 'injected-error', 'gzip', 'big-packet', 'truncated-golden', 'golden-byte', 'garbage'],
     'rule': 'Three hand-built pcapng files (little/big endian; all block types incl. name resolution, statistics, decryption '
             'secrets, simple/obsolete packet blocks, two sections, an unknown-version section) with every 16/32-bit field of every '
             'block header, option and record forced to boundary values (0,1,3,4,.., max, +-1/4/8 around the original); if_tsresol all '
             '256 values; the golden files of pcapgo/tests cut at every offset (small) or a stride, and with single bytes forced to '
             'extremes; random and block-structured garbage; chunk sizes 1..40, two-chunk splits at every position, random chunk '
             'patterns, one-byte + data-with-error readers; an injected I/O error at every position; gzip-wrapped valid, mutated and '
-            'cut streams.  Every observation (packets, terminal class, reader state) is compared with the model run over the same '
+            'cut streams; valid files with large packets (capture lengths 65535..65537, 262143..262145, up to 4 MiB+1; snap length 0 '
+            'and large) read with both calls, which must agree (clause C15:zero-copy-equals-copy).  Every observation (packets, terminal class, reader state) is compared with the model run over the same '
             'chunked stream; the oracle checks panic, hang (10 s), allocation (runtime.MemStats.TotalAlloc delta of each call <= bytes '
             'present + largest declared snap length + 80 KiB (a 16-bit option value plus the bufio buffer), 512 KiB for gzip), shape, and chunking/error invariance against a plain read.',
     'shrink_keep_first': 1,
